@@ -61,7 +61,7 @@ def run(ctx):
                 "upper- and lower-case fields, unions with/without payload, records and tuples containing unions containing slices, "
                 "slices (length <= 2, thorough: <= 3) of ints/strings/records/tuples/slices; every slice in each library-produced representation incl. views of "
                 "the other operand's array), a = b, a <> b and b = a evaluated by the real frt on Go types emitted by fc; "
-                "distinct = distinct (type, a, b, shared); non-trivial = not both scalars.  Plus end to end: 360 Folang programs (10 types x equal / unequal x "
+                "distinct = distinct (type, a, b, shared); non-trivial = not both scalars.  Plus end to end: 372 Folang programs (10 types x equal / unequal x "
                 "= / <> x operands written as literal / variable / call result on either side) transpiled by fc, run, validated against FoSem")
     lines, bad = run_pairs(ctx, types=ALL_TYPES)
     for i, t in enumerate(lines):
